@@ -9,4 +9,7 @@ EXTENDS IqDispatch, Json, CSV, IOUtils
 
 EmitBehaviour ==
     CSVWrite("%1$s", <<ToJson([ext |-> ext', steps |-> hist'])>>, IOEnv.QXV_GEN)
+
+\* random sequences in which every IQ arrives while a tracked request of the client is outstanding
+EmitPendingBehaviour == KeepPending /\ EmitBehaviour
 =============================================================================
